@@ -83,8 +83,24 @@ func Round(pkg *packages.Package, exempt map[string]bool, counter *int) (*Result
 			n.curObj, _ = n.info.Defs[fd.Name].(*types.Func)
 			if n.inlineExprHelpers(fd) {
 				changed = true
-			} else if n.rewriteBlock(fd.Body.List, func(l []ast.Stmt) { fd.Body.List = l }) {
-				changed = true
+			} else {
+				if n.rewriteBlock(fd.Body.List, func(l []ast.Stmt) { fd.Body.List = l }) {
+					changed = true
+				}
+				// the bodies of function literals (callbacks, goroutines) are statement lists of their own
+				var lits []*ast.FuncLit
+				ast.Inspect(fd.Body, func(x ast.Node) bool {
+					if l, ok := x.(*ast.FuncLit); ok {
+						lits = append(lits, l)
+					}
+					return true
+				})
+				for _, l := range lits {
+					l := l
+					if n.rewriteBlock(l.Body.List, func(nl []ast.Stmt) { l.Body.List = nl }) {
+						changed = true
+					}
+				}
 			}
 			if n.dropDeadLiterals(fd) {
 				changed = true
@@ -255,12 +271,63 @@ func (n *normalizer) rewriteBlock(list []ast.Stmt, set func([]ast.Stmt)) bool {
 				}
 			}
 		case *ast.LabeledStmt:
-			// keep labeled statements as they are (their bodies are reached through the cases above only when unlabeled)
+			// the statement under the label (the labeled switch an earlier inlining produced, a labeled loop)
+			inner := []ast.Stmt{s.Stmt}
+			if n.rewriteNested(inner) {
+				changed = true
+			}
 		}
 		out = append(out, st)
 	}
 	if changed {
 		set(out)
+	}
+	return changed
+}
+
+// rewriteNested rewrites the statement lists nested in the given statements without replacing the statements themselves.
+func (n *normalizer) rewriteNested(list []ast.Stmt) bool {
+	changed := false
+	for _, st := range list {
+		switch s := st.(type) {
+		case *ast.BlockStmt:
+			if n.rewriteBlock(s.List, func(l []ast.Stmt) { s.List = l }) {
+				changed = true
+			}
+		case *ast.IfStmt:
+			if n.rewriteIf(s) {
+				changed = true
+			}
+		case *ast.ForStmt:
+			if n.rewriteBlock(s.Body.List, func(l []ast.Stmt) { s.Body.List = l }) {
+				changed = true
+			}
+		case *ast.RangeStmt:
+			if n.rewriteBlock(s.Body.List, func(l []ast.Stmt) { s.Body.List = l }) {
+				changed = true
+			}
+		case *ast.SwitchStmt:
+			for _, cc := range s.Body.List {
+				c := cc.(*ast.CaseClause)
+				if n.rewriteBlock(c.Body, func(l []ast.Stmt) { c.Body = l }) {
+					changed = true
+				}
+			}
+		case *ast.TypeSwitchStmt:
+			for _, cc := range s.Body.List {
+				c := cc.(*ast.CaseClause)
+				if n.rewriteBlock(c.Body, func(l []ast.Stmt) { c.Body = l }) {
+					changed = true
+				}
+			}
+		case *ast.SelectStmt:
+			for _, cc := range s.Body.List {
+				c := cc.(*ast.CommClause)
+				if n.rewriteBlock(c.Body, func(l []ast.Stmt) { c.Body = l }) {
+					changed = true
+				}
+			}
+		}
 	}
 	return changed
 }
@@ -833,7 +900,7 @@ func (n *normalizer) inlinableBody(c *callee) bool {
 		}
 	}
 	ast.Inspect(c.body, func(x ast.Node) bool {
-		if id, isID := x.(*ast.Ident); isID {
+		if id, isID := x.(*ast.Ident); isID && id.Name != "_" {
 			if o := n.info.Defs[id]; o != nil {
 				if _, isLabel := o.(*types.Label); !isLabel {
 					c.objs[o] = true
